@@ -215,6 +215,35 @@ func fill(v reflect.Value, t *Ty, r *rand.Rand, m mode, depth int) {
 		for _, f := range t.Fields {
 			fill(fieldOf(v, f.Go), f.T, r, m, depth+1)
 		}
+		if v.Type() == poolType {
+			// what the contracts store: node ids are distinct and every node's SetIndex is its rank by id
+			// (Pool.computeNodePositions recomputes it on every decode)
+			nm := v.FieldByName("NodesMap")
+			var ids []string
+			byID := map[string]reflect.Value{}
+			off := r.Intn(len(validKeys))
+			for j, k := range nm.MapKeys() {
+				n := nm.MapIndex(k)
+				if n.IsNil() {
+					continue
+				}
+				// the id of a node is derived from its public key (SetPublicKey, which every decode calls): distinct keys
+				key := validKeys[(off+j)%len(validKeys)]
+				fresh := reflect.New(nodeType)
+				if res := fresh.MethodByName("SetPublicKey").Call([]reflect.Value{reflect.ValueOf(key)}); !res[0].IsNil() {
+					panic("SetPublicKey: " + res[0].Interface().(error).Error())
+				}
+				id := fresh.Elem().FieldByName("Client").FieldByName("IDField").FieldByName("ID").String()
+				n.Elem().FieldByName("Client").FieldByName("IDField").FieldByName("ID").SetString(id)
+				n.Elem().FieldByName("Client").FieldByName("PublicKey").SetString(key)
+				ids = append(ids, id)
+				byID[id] = n
+			}
+			sort.Strings(ids)
+			for rank, id := range ids {
+				byID[id].Elem().FieldByName("SetIndex").SetInt(int64(rank))
+			}
+		}
 		if v.Type() == nodeType {
 			// UnmarshalMsg of a node pool decodes every node's public key: it must be a well-formed BLS key
 			v.FieldByName("Client").FieldByName("PublicKey").SetString(validKeys[r.Intn(len(validKeys))])
